@@ -149,6 +149,8 @@ def run(chk):
     js += C10_toeplitz.jobs(chk)
     core.run_jobs(chk, js)
     C10_obs.run(chk)
+    from .. import session
+    session.run_for(chk, 'C10')      # Session.tla: results do not depend on earlier calls
 
 
 def replay_case(chk, sig, case):
